@@ -1,6 +1,8 @@
 """C16 - pending-message buffer is bounded and overflow is explicit (DESIGN §6 C16)."""
 from __future__ import annotations
 
+import asyncio
+
 from .. import explorer, runner
 from ..vloop import EPS
 from ..ref import framing
@@ -245,6 +247,53 @@ def not_open_cases(chk):
                 if msg:
                     chk.violation(f"at{gen}:not-open:during-close", msg,
                                   {"kind": "input", "module": "pvmc.props.c16", "gen": gen, "when": f"during-close-{state}-{k}"})
+                k += 1
+        # the application re-opens the socket and sends while an earlier close() is still winding down (another task of
+        # the application): what send() accepted then belongs to the new life of the socket and is transmitted
+        for state in ("connected", "connecting"):
+            k = 1
+            while True:
+                w = Scenario({"gen": gen, "open": False})
+
+                async def slow_conn(*, connected):
+                    # a connection subscriber that takes a few loop iterations (the API layer's does): close() is
+                    # suspended in its disconnected notification for that long
+                    for _ in range(4):
+                        await asyncio.sleep(0)
+                slow_conn.__qualname__ = "c16.slow_conn"
+                w.sock.subscribe_on_connection_changed(slow_conn)
+                w.spawn(w.sock.open_socket())
+                w.loop.settle()
+                if state == "connected":
+                    w.net.resolve(True)
+                    w.loop.settle()
+                w.spawn(w.sock.close())
+                turns = 0
+                while turns < k and w.loop.has_ready():
+                    w.loop.turn()
+                    turns += 1
+                if turns < k:
+                    break
+                if w.sock.is_open:
+                    k += 1
+                    continue            # close() has not started yet
+                w.spawn(w.sock.open_socket())
+                recs = [w.submit(w.fam(i), "I") for i in range(2)]
+                w.loop.turn() if w.loop.has_ready() else None
+                w.net.auto = "accept"
+                w.net.resolve_all(False)
+                w.loop.run_until(w.loop.time() + 10.0)
+                frames, _p = w.wire()
+                pairs, _u = sc.match_frames(w, frames)
+                got = {c["idx"] for f, c in pairs}
+                n += 1
+                chk.counters["executions"] += 1
+                lost = [r["idx"] for r in recs if r["status"] == "returned" and r["idx"] not in got]
+                if lost and w.sock.is_open:
+                    chk.violation(f"at{gen}:reopen-during-close", f"at{gen}: open_socket() and two sends {k} loop iterations into a close() ({state}): "
+                                  f"send() accepted messages {lost} (statuses {[r['status'] for r in recs]}) but they were never transmitted "
+                                  f"although the socket is open and connected={w.sock.is_connected}",
+                                  {"kind": "input", "module": "pvmc.props.c16", "gen": gen, "when": f"reopen-during-close-{state}-{k}"})
                 k += 1
     return n
 
